@@ -3,7 +3,7 @@ use vp::engine::{run_property, RunArgs, Tier};
 use vp::{gag, props, sut};
 
 fn usage() -> ! {
-    eprintln!("usage: vp <Cxx> [--tier quick|thorough] [--replay FILE] [--seed N] [--workers N] [--cases N]");
+    eprintln!("usage: vp <Cxx> [--tier quick|thorough] [--replay FILE] [--replay-case-bytes FILE] [--emit-corpus DIR N] [--seed N] [--workers N] [--cases N]");
     std::process::exit(2)
 }
 
@@ -23,6 +23,8 @@ fn main() {
         .map(|v| v as u64)
         .unwrap_or(1);
     let mut replay = None;
+    let mut replay_case_bytes = None;
+    let mut emit_corpus = None;
     let mut workers = std::thread::available_parallelism().map(|n| n.get()).unwrap_or(8).min(16);
     let mut cases_override = None;
     let mut i = 2;
@@ -39,6 +41,16 @@ fn main() {
             "--replay" => {
                 i += 1;
                 replay = Some(argv.get(i).cloned().unwrap_or_else(|| usage()));
+            }
+            "--replay-case-bytes" => {
+                i += 1;
+                replay_case_bytes = Some(argv.get(i).cloned().unwrap_or_else(|| usage()));
+            }
+            "--emit-corpus" => {
+                let dir = argv.get(i + 1).cloned().unwrap_or_else(|| usage());
+                let n: usize = argv.get(i + 2).and_then(|s| s.parse().ok()).unwrap_or_else(|| usage());
+                emit_corpus = Some((dir, n));
+                i += 2;
             }
             "--seed" => {
                 i += 1;
@@ -62,34 +74,14 @@ fn main() {
         tier,
         seed,
         replay,
+        replay_case_bytes,
+        emit_corpus,
         workers,
         cases_override,
     };
-    let code = match id.as_str() {
-        "C01" => run_property(props::c01::C01, args),
-        "C02" => run_property(props::c02::C02, args),
-        "C03" => run_property(props::c03::C03, args),
-        "C04" => run_property(props::c04::C04, args),
-        "C05" => run_property(props::c05::C05, args),
-        "C06" => run_property(props::c06::C06, args),
-        "C07" => run_property(props::c07::C07, args),
-        "C08" => run_property(props::c08::C08, args),
-        "C09" => run_property(props::c09::C09, args),
-        "C10" => run_property(props::c10::C10, args),
-        "C11" => run_property(props::c11::C11, args),
-        "C12" => run_property(props::c12::C12, args),
-        "C13" => run_property(props::c13::C13, args),
-        "C14" => run_property(props::c14::C14, args),
-        "C15" => run_property(props::c15::C15, args),
-        "C16" => run_property(props::c16::C16, args),
-        "C17" => run_property(props::c17::C17, args),
-        "C18" => run_property(props::c18::C18, args),
-        "C19" => run_property(props::c19::C19, args),
-        "C20" => run_property(props::c20::C20, args),
-        _ => {
-            eprintln!("unknown property {}", id);
-            2
-        }
-    };
+    let code = vp::for_property!(id.as_str(), p => run_property(p, args), {
+        eprintln!("unknown property {}", id);
+        2
+    });
     std::process::exit(code);
 }
